@@ -198,7 +198,7 @@ def main():
             import re as _re
             from concurrent.futures import ThreadPoolExecutor as _TPE
             ptops = [t for t in tops if t.startswith("Properties_")]
-            limit = int(os.environ.get("VERIF_COQCHK_LIMIT", "1500"))
+            limit = int(os.environ.get("VERIF_COQCHK_LIMIT", "900"))
 
             def _chk(t):
                 return t, vlib.sh("ulimit -v 14000000; timeout %d coqchk -silent -o -Q . LY LY.%s" % (limit, t[:-2]),
